@@ -933,7 +933,7 @@ func runC19(c *vk.Ctx) {
 		return
 	}
 	c.R.Rule = "cases = transaction histories (signed transactions through FinalizeBlock: pool creation, joins/exits of every kind on balancer / stableswap / 3-asset pools, routed / split swaps of both kinds with taker fees incl. failing ones, concentrated positions (create / add / withdraw / transfer / claims), external no-lock gauges, locks with reward receivers, partial unlocks, superfluid delegate / undelegate / unbond on a share denom and through concentrated full-range positions (assets enabled by recorded admin actions), validator-set preferences, plain staking and reward withdrawals, a weight-shifting balancer pool, lock gauges with two reward denoms, token-factory mint / burn / force-transfer / change-admin / metadata, smart-account authenticators, protorev administration, fees paid in a registered non-native fee token, minted pool incentives routed by distribution records, bank sends; several transactions per block; day and week epoch boundaries) generated and executed by a primary process; 3 replica processes replay the history with GOMAXPROCS 1 / 4 / 16 and different GOGC (every process has its own map-iteration seeds); for every export point (every k-th block and every epoch block) a fresh process is initialised from the exported state and fed the rest of the history; one export is imported twice and the two imported nodes must have identical app hashes. Compared: app hash, per-transaction code / codespace / gas / data / events and block events between replicas of one lineage; per-transaction results, canonicalised per-module exported state and a query battery (spot prices, estimates, TWAPs, balances, locks, gauges, positions with claimable rewards, delegations, validator-set preferences, authenticators, fee tokens, distribution records, supplies) at the final height between the original and every imported node. distinct_nontrivial counts distinct (comparison kind, message kinds in the block, epoch block?, export distance bucket) tuples."
-	nHist := c.N(2, 16)
+	nHist := c.N(3, 16)
 	nBlocks := c.N(60, 400)
 	if os.Getenv("VERIF_C19_MODE") == "race" {
 		nHist, nBlocks = c.N(1, 4), c.N(40, 150)
